@@ -246,6 +246,33 @@ fn exec(op: &Op) -> String {
                 hex(st.to_string().as_bytes())
             )
         }
+        "stream.big" => {
+            // arg: size in KiB.  A well-formed stream of that size is built here, written in ONE call
+            // and again in 64 KiB pieces: both must take every byte and collect the same entries
+            // (too large to send through the model: the harness compares the two runs itself)
+            let Some(kib) = op.str(0).and_then(|s| s.parse::<usize>().ok()) else { return "BAD-ARG".into() };
+            if kib > 8192 {
+                return "BAD-ARG".into();
+            }
+            let rec = "BUILD_DATE=d\nCATEGORIES=c\nCOMMENT=caf\u{e9}\nDESCRIPTION=some text that makes the record a little longer\nMACHINE_ARCH=x\nOPSYS=x\nOS_VERSION=x\nPKGNAME=a-1\nPKGPATH=a/b\nPKGTOOLS_VERSION=1\nSIZE_PKG=1\n\n";
+            let mut s = String::new();
+            while s.len() < kib * 1024 {
+                s.push_str(rec);
+            }
+            let want = s.len() / rec.len();
+            let mut one = SummaryStream::new();
+            let r1 = one.write(s.as_bytes());
+            let mut many = SummaryStream::new();
+            let mut ok_all = true;
+            for c in s.as_bytes().chunks(65536) {
+                match many.write(c) {
+                    Ok(n) if n == c.len() => {}
+                    _ => ok_all = false,
+                }
+            }
+            let good = matches!(r1, Ok(n) if n == s.len()) && ok_all && one.entries().len() == want && many.entries().len() == want;
+            if good { "ok".into() } else { format!("BIG-WRITE-DIFFERS:one={:?}/{} many={}/{} want={}", r1.ok(), one.entries().len(), ok_all, many.entries().len(), want) }
+        }
         "utf8.scan" => match std::str::from_utf8(&op.args[0]) {
             Ok(_) => format!("{}:complete", op.args[0].len()),
             Err(e) => format!(
